@@ -379,7 +379,11 @@ def run_property(mod, tier, seed, replay=None, budget_s=None):
             if case.get("_aged"):
                 aging.reset(int(case_hash(jsonable({k: v for k, v in case.items() if not k.startswith("_")})), 16))
             with aging.aging(bool(case.get("_aged"))):
-                return mod.run_impl(case)
+                aging.take_failures()
+                obs = mod.run_impl(case)
+            for t in aging.take_failures():      # an in-place detour that is exact for this object did not bring it back
+                obs.setdefault("oracle", []).append("aged object: " + t)
+            return obs
         except MachineryError:
             raise
         except SkipCase as e:   # says nothing about the property: no observables, no failure
